@@ -36,7 +36,7 @@ func NumCPU() int {
 	}
 	pd := PD(p)
 	if pd.NCPU == 0 {
-		pd.NCPU = []int{4, 1, 2, 16}[s.C.Choose(4, "numcpu")]
+		pd.NCPU = []int{4, 1, 2, 16, 1}[s.C.Choose(5, "numcpu")]
 	}
 	return pd.NCPU
 }
